@@ -17,7 +17,7 @@
 From Coq Require Import List NArith ZArith Bool Sorting.Sorted.
 From Oxia.KeyOrder Require Import Model Proofs.
 From Oxia.Db Require Import Types Bytes Escape Keys Kv Sessions Indexes Write Read KvProofs Proofs_C12 IndexReads
-     C15_Layout C15_Inv C15_Reads Proofs_C15 C15_Fresh Validate C15_Validated.
+     C15_Layout C15_Inv C15_Reads Proofs_C15 C15_Fresh Validate C15_Validated NotifStream C15_Trim.
 Import ListNotations.
 
 (* The key layout determines (index name, secondary key, primary key) ... *)
@@ -97,6 +97,17 @@ Theorem c15_mirror_preserved : forall cfg st req offset ts,
   inv (st_kv (fst (process_write wrapper_callbacks cfg st req offset ts))).
 Proof. exact process_write_inv. Qed.
 Print Assumptions c15_mirror_preserved.
+
+(* Background activity: a round of the notifications trimmer (Db/NotifStream.v, any clock reading, any retention)
+   preserves the invariant, changes no key under "__oxia/idx/" and no record's declarations. *)
+Theorem c15_trim_preserves_index_mirror : forall st now retention,
+  inv (st_kv st) ->
+  let st' := trim_state st now retention in
+  inv (st_kv st') /\
+  (forall k, is_idx k = true -> kv_get (st_kv st') k = kv_get (st_kv st) k) /\
+  (forall pk si, declares (st_kv st') pk si <-> declares (st_kv st) pk si).
+Proof. exact trim_preserves_index_mirror. Qed.
+Print Assumptions c15_trim_preserves_index_mirror.
 
 (* admissible ranges: every range outside "__oxia/" and the range session.delete() removes *)
 Theorem c15_user_range_admissible : forall r, range_user r -> range_noidx r.
